@@ -39,7 +39,7 @@ import (
 
 func TestMain(m *testing.M) { ev.Main(m) }
 
-var rec = ev.For("C34", "rapid-drawn programs: 2-4 clients x 6-20 ops (Read/Write of the Value attribute) over 1-2 fresh shared variables of one in-process server, unique write values client*1e6+k (in a third of the cases the writers also supply a SourceTimestamp - far past, 2 s ago, 1 h ahead - or a ServerTimestamp), drawn pre-op yields (none/Gosched/0-400us sleep), common start barrier; history (invoke, return on the monotonic clock) judged by porcupine with a per-node register model; non-trivial = two operations of different clients on the same node overlapped in time and at least one of them is a write; distinct by hash of the drawn programs")
+var rec = ev.For("C34", "rapid-drawn programs: 2-4 clients x 6-20 ops (Read/Write of the Value attribute) over 1-2 fresh shared variables of one in-process server, unique write values client*1e6+k (in a third of the cases the writers also supply a SourceTimestamp - far past, 2 s ago, 1 h ahead - or a ServerTimestamp; in half of the 2-node cases a third of the requests name both nodes - one WriteRequest / ReadRequest, recorded as two operations with the same interval), drawn pre-op yields (none/Gosched/0-400us sleep), common start barrier; history (invoke, return on the monotonic clock) judged by porcupine with a per-node register model; non-trivial = two operations of different clients on the same node overlapped in time and at least one of them is a write; distinct by hash of the drawn programs")
 
 // ---------------------------------------------------------------------------
 // case
@@ -59,6 +59,11 @@ type Op struct {
 	// 0 none (value only), 1 far in the past (2001), 2 two seconds ago,
 	// 3 one hour ahead, 4 a ServerTimestamp two seconds ago instead
 	TS int `json:"ts,omitempty"`
+	// Both (cases with 2 nodes): ONE request names both nodes - a write stores
+	// Val in Node and Val2 in the other node, a read reads both. It appears in
+	// the history as two operations with the same invoke / return times.
+	Both bool  `json:"both,omitempty"`
+	Val2 int64 `json:"v2,omitempty"`
 }
 
 // HOp is one recorded operation of the observed history.
@@ -123,6 +128,7 @@ func genCase(t *rapid.T) Case {
 	nc := rapid.IntRange(2, 4).Draw(t, "clients")
 	writeBias := rapid.IntRange(2, 8).Draw(t, "writeBias") // of 10
 	stamped := rapid.IntRange(0, 2).Draw(t, "stampedWrites") == 0 // a third of the cases: writers supply timestamps
+	multi := c.Nodes == 2 && rapid.Bool().Draw(t, "multiNodeRequests")  // requests that name both nodes
 	for ci := 0; ci < nc; ci++ {
 		n := rapid.IntRange(6, 20).Draw(t, "nops")
 		prog := make([]Op, n)
@@ -135,6 +141,13 @@ func genCase(t *rapid.T) Case {
 				o.Val = int64(ci+1)*1_000_000 + k
 				if stamped {
 					o.TS = rapid.IntRange(0, 4).Draw(t, "ts")
+				}
+			}
+			if multi && rapid.IntRange(0, 2).Draw(t, "both") == 0 {
+				o.Both, o.TS = true, 0
+				if o.Kind == kWrite {
+					k++
+					o.Val2 = int64(ci+1)*1_000_000 + k
 				}
 			}
 			switch y := rapid.IntRange(0, 9).Draw(t, "yieldKind"); {
@@ -246,6 +259,57 @@ func execute(c Case) (hist []HOp, err error) {
 					time.Sleep(time.Duration(o.Yield-1) * 20 * time.Microsecond)
 				}
 				h := HOp{Client: ci, Kind: o.Kind, Node: o.Node, Val: o.Val}
+				if o.Both && c.Nodes == 2 {
+					h2 := HOp{Client: ci, Kind: o.Kind, Node: 1 - o.Node, Val: o.Val2}
+					h.Call = time.Since(base).Nanoseconds()
+					var err error
+					if o.Kind == kWrite {
+						var resp *ua.WriteResponse
+						resp, err = cl.Write(ctx, &ua.WriteRequest{NodesToWrite: []*ua.WriteValue{
+							{NodeID: ids[o.Node], AttributeID: ua.AttributeIDValue, Value: &ua.DataValue{EncodingMask: ua.DataValueValue, Value: ua.MustVariant(o.Val)}},
+							{NodeID: ids[1-o.Node], AttributeID: ua.AttributeIDValue, Value: &ua.DataValue{EncodingMask: ua.DataValueValue, Value: ua.MustVariant(o.Val2)}}}})
+						if err == nil && (len(resp.Results) != 2 || resp.Results[0] != ua.StatusOK || resp.Results[1] != ua.StatusOK) {
+							errs[ci] = fmt.Errorf("client %d two-node write: results %v", ci, resp.Results)
+						}
+					} else {
+						var resp *ua.ReadResponse
+						resp, err = cl.Read(ctx, &ua.ReadRequest{MaxAge: 0, TimestampsToReturn: ua.TimestampsToReturnNeither, NodesToRead: []*ua.ReadValueID{
+							{NodeID: ids[o.Node], AttributeID: ua.AttributeIDValue, DataEncoding: &ua.QualifiedName{}},
+							{NodeID: ids[1-o.Node], AttributeID: ua.AttributeIDValue, DataEncoding: &ua.QualifiedName{}}}})
+						if err == nil && len(resp.Results) != 2 {
+							errs[ci] = fmt.Errorf("client %d two-node read: %d results", ci, len(resp.Results))
+						} else if err == nil {
+							for x, hh := range []*HOp{&h, &h2} {
+								dv := resp.Results[x]
+								switch {
+								case dv == nil || dv.Status != ua.StatusOK:
+									errs[ci] = fmt.Errorf("client %d two-node read: result %d: %v", ci, x, dv)
+								case dv.Value == nil:
+									hh.Bad = "no value"
+								default:
+									if v, ok := dv.Value.Value().(int64); ok {
+										hh.Val = v
+									} else {
+										hh.Bad = fmt.Sprintf("%T %v", dv.Value.Value(), dv.Value.Value())
+									}
+								}
+							}
+						}
+					}
+					h.Ret = time.Since(base).Nanoseconds()
+					switch {
+					case err != nil && isTimeout(err):
+						h.Timeout = true
+					case err != nil:
+						errs[ci] = fmt.Errorf("client %d two-node %s: %v", ci, o.Kind, err)
+					}
+					h2.Call, h2.Ret, h2.Timeout = h.Call, h.Ret, h.Timeout
+					out = append(out, h, h2)
+					if errs[ci] != nil {
+						break
+					}
+					continue
+				}
 				if o.Kind == kWrite {
 					h.Call = time.Since(base).Nanoseconds()
 					st, err := writeStamped(ctx, cl, ids[o.Node], o.Val, o.TS)
@@ -425,6 +489,17 @@ func shape(c Case, hist []HOp) (nontrivial bool, classes []string) {
 				tsKinds[o.TS] = true
 			}
 		}
+	}
+	both := map[string]bool{}
+	for _, p := range c.Programs {
+		for _, o := range p {
+			if o.Both && c.Nodes == 2 {
+				both[o.Kind] = true
+			}
+		}
+	}
+	for k := range both {
+		classes = append(classes, "has-request-naming-both-nodes:"+k)
 	}
 	if len(tsKinds) > 0 {
 		classes = append(classes, "has-write-with-timestamp")
